@@ -9,6 +9,8 @@ import FastorModel.Driver.ViewWrite
 import FastorModel.Driver.Linalg
 import FastorModel.Driver.Permute
 import FastorModel.Driver.RandomViews
+import FastorModel.Driver.Reduce
+import FastorModel.Driver.Horizontal
 /-
   `fmodel`: line-protocol driver.  Reads one case per line on stdin, prints the model's observables
   for it.  The harness prints the implementation's observables for the same case in the same format.
@@ -40,6 +42,11 @@ def step (line : String) : String :=
   | "rview2" :: rest => runRview2 (parseKV rest)
   | "rview3" :: rest => runRview3 (parseKV rest)
   | "fview3" :: rest => runFview3 (parseKV rest)
+  | "reduce" :: rest => runReduce (parseKV rest)
+  | "minmax" :: rest => runMinmax (parseKV rest)
+  | "pred" :: rest => runPred (parseKV rest)
+  | "detqr" :: rest => runDetQR (parseKV rest)
+  | "hstep" :: rest => runHstep (parseKV rest)
   | _ => "bad-op"
 
 partial def loop (h : IO.FS.Stream) (out : IO.FS.Stream) : IO Unit := do
